@@ -188,7 +188,7 @@ Proof.
   destruct (Qeqb a c) eqn:E1; [gb_bool; lra|].
   unfold log_fold. destruct (Qltb a 0) eqn:E2; [gb_bool; lra|].
   fold e'. rewrite F, FL. fold a c.
-  destruct (f64_pos_ok a && Qleb a a); destruct (f64_pos_ok c && Qleb c c); reflexivity.
+  destruct (log_end_ok b (2 ^ l) f a && Qleb a a); destruct (log_end_ok b (2 ^ l) la c && Qleb c c); reflexivity.
 Qed.
 
 (* ---------- after Nice the first and last major ticks are the landed ends ---------- *)
